@@ -1,5 +1,5 @@
 SPECIFICATION Spec
-CONSTANTS MaxN = 3  MaxC = 3  FullN = 2  SampleK = 1  SampleSet = "q"  Variant = "one_tri"  AssertFaceConnectedSuffices = FALSE
+CONSTANTS MaxN = 1  MaxC = 0  FullN = 1  SampleK = 1  SampleSet = "n"  Variant = "one_tri"  AssertFaceConnectedSuffices = FALSE
 INVARIANT TypeOK
 INVARIANT XFastest
 INVARIANT RoundTrip
